@@ -67,7 +67,7 @@ TStart(w) ==
         /\ UNCHANGED <<ns, NB, np, pad, off, file, misplaced, rms, size, pads, tid, prop, ord>>
         /\ impl' = Pick(impl, << <<D!Start(w), "Start">> >>)
 
-\* WriteBatch (+ Pad, + WorkerDone): e = [ev |-> "Write", s0, s1, p0, rows, i0, rmsrow, padrows, padpos, done]
+\* WriteBatch (+ Pad, + WorkerDone): e = [ev |-> "Write", s0, s1, p0, rows, i0, rmsrow, padrows, padpos, done, ragged]
 \*   samples [s0 + i0, s0 + i0 + rows) of batch s0 / S were written at rows [p0, p0 + rows)
 TWrite(w) ==
     /\ CanRun(w)
@@ -81,7 +81,8 @@ TWrite(w) ==
                partial == {c \in D!Cells : ~(c \in covered) /\ D!Lo(c) < hi /\ lo < (IF c + 1 \in D!Cells THEN D!Lo(c + 1) ELSE ns)}
            IN /\ file' = [c \in DOMAIN file |-> IF c \in covered \cup partial THEN b ELSE file[c]]
               \* every sample at its own position: output row = sample index; whole cells only
-              /\ misplaced' = (misplaced \/ (e.rows > 0 /\ (lo # e.s0 + e.i0 \/ partial # {} \/ e.s0 % D!S # 0)))
+              \* (e.ragged: the bytes written were not e.rows whole rows starting at a row boundary of the file)
+              /\ misplaced' = (misplaced \/ e.ragged \/ (e.rows > 0 /\ (lo # e.s0 + e.i0 \/ partial # {} \/ e.s0 % D!S # 0)))
               /\ rms' = rms \cup {e.rmsrow}
               /\ wcur' = [wcur EXCEPT ![w] = e.p0 + e.rows]
               /\ pads' = IF e.padrows > 0 THEN pads \cup {e.padpos} ELSE pads
@@ -106,7 +107,9 @@ Judge ==
     /\ \A w \in D!W : wpc[w] \in {"done", "none", "crashed"}
     /\ \E w \in D!W : wpc[w] # "none"
     /\ prop' = Pick(prop, <<
-          <<D!NoCrash, "NoCrash">>,
+          \* no worker raised, and neither did the call itself (before the fan-out or after it, when it assembles the
+          \* quality files): R.raised
+          <<D!NoCrash /\ ~R.raised, "NoCrash">>,
           <<D!CanonicalP(file) /\ ~misplaced, "FinalFileCanonical">>,
           <<D!LengthP(size), "Length">>,
           <<R.realsize < 0 \/ D!LengthP(R.realsize), "Length(real file)">>,
